@@ -194,6 +194,7 @@ def make_scratch(repo, reuse=None, fresh=False):
                         src = f.read().strip()
                     if src and not os.path.isdir(src):
                         shutil.rmtree(os.path.join(BUILD_BASE, d), ignore_errors=True)
+                        shutil.rmtree(os.path.join(BUILD_BASE, "target-" + d[3:]), ignore_errors=True)
                 except Exception:
                     pass
     _check_location(root, "scratch dir", repo)
@@ -454,7 +455,10 @@ def main():
         return 0
     if not args.jobs:
         args.jobs = 12 if (args.tier == "quick" and not args.harness) else 4
-    td = args.target_dir or (None if (args.fresh or args.scratch) else os.path.join(BUILD_BASE, "target"))
+    # one target dir PER source tree: Kani's goto artifacts are keyed by crate and harness name only, so a target dir shared between
+    # different trees (the driver checks many mutated copies) hands a stale binary of another tree to an up-to-date build
+    _tkey = hashlib.sha1(os.path.realpath(args.repo).encode()).hexdigest()[:10]
+    td = args.target_dir or (None if (args.fresh or args.scratch) else os.path.join(BUILD_BASE, "target-" + _tkey))
     if td:
         _check_location(td, "target dir")
         TARGET_DIR_ARGS = ["--target-dir", os.path.realpath(td)]
